@@ -116,6 +116,20 @@ def main():
 def finish(a, src, meta, patch):
     dst = os.path.join(V, "seeded", a.name)
     os.makedirs(dst, exist_ok=True)
+    oldp = os.path.join(dst, "meta.json")
+    vcommit = subprocess.check_output(["git", "-C", V, "rev-parse", "--short", "HEAD"]).decode().strip()
+    entry = {"verif_commit": vcommit, "checks": meta.get("checks", {})}
+    if os.path.exists(oldp):
+        old = json.load(open(oldp))
+        meta["history"] = old.get("history", [{"verif_commit": "(earlier)", "checks": old.get("checks", {})}])
+        if meta.get("demo_confirmed") is None:
+            for k in ("demo", "demo_confirmed", "demo_files"):
+                if old.get(k) is not None:
+                    meta[k] = old[k]
+            meta["ran"] = old.get("ran", []) + meta.get("ran", [])
+    else:
+        meta["history"] = []
+    meta["history"].append(entry)
     shutil.copy(patch, os.path.join(dst, "patch.diff"))
     for f in glob.glob(os.path.join(src, "MUTATION", "*")):
         if os.path.basename(f) != "patch.diff":
